@@ -42,7 +42,47 @@ def multi_task_or_nested(case, fail):
     return nested_product(case, fail) or multi_task_component(case, fail)
 
 
+def _ntasks(cfg):
+    n = {}
+    for t in cfg.get("tasks", []):
+        if t["comp"]:
+            n[t["comp"]] = n.get(t["comp"], 0) + 1
+    return n
+
+
+def _step_events(case, fail):
+    """Events of the simulation step that contains the failing position."""
+    ev = case["runs"][fail["run"] - 1].get("ev", [])
+    pos = fail["pos"]
+    if pos <= 0 or pos > len(ev):
+        return []
+    tm = ev[pos - 1]["st"]["time"]
+    return [e for e in ev if e["st"]["time"] == tm]
+
+
+def multi_task_component_moved(case, fail):
+    """D15: the failing step re-places a flat component that carries >= 2 tasks, or a task of
+    such a component holds a facility of another workplace."""
+    cfg = _cfg(case)
+    if nested_product(case, fail):
+        return False
+    n = _ntasks(cfg)
+    evs = _step_events(case, fail)
+    for a, b in zip(evs, evs[1:]):
+        for c, (x, y) in enumerate(zip(a["st"]["cp"], b["st"]["cp"]), 1):
+            if x != y and n.get(c, 0) >= 2:
+                return True
+    for e in evs:
+        for ti, t in enumerate(cfg["tasks"]):
+            if t["needF"] and n.get(t["comp"], 0) >= 2:
+                for f in e["st"]["af"][ti]:
+                    if cfg["facs"][f - 1]["wp"] != e["st"]["cp"][t["comp"] - 1]:
+                        return True
+    return False
+
+
 DISCRIMINATORS = {
+    "multi_task_component_moved": multi_task_component_moved,
     "nested_product": nested_product,
     "multi_task_component": multi_task_component,
     "multi_task_or_nested": multi_task_or_nested,
